@@ -1691,7 +1691,20 @@ func txSet(txs []*pb.Transaction) string {
 // reconciles the model with what the node persisted (the faulted operation's own result is
 // undefined; everything observable afterwards must still be consistent: CheckState / CheckImage).
 func (nm *NodeMachine) ApplyWithFault(op NOp, nth int) (fired bool, err error) {
-	nm.N.World.FailNthWrite(nth)
+	return nm.applyWithFault(op, nth, false)
+}
+
+// ApplyWithReadFault: as ApplyWithFault, but the nth point READ (Get / Has) from now returns an I/O error.
+func (nm *NodeMachine) ApplyWithReadFault(op NOp, nth int) (fired bool, err error) {
+	return nm.applyWithFault(op, nth, true)
+}
+
+func (nm *NodeMachine) applyWithFault(op NOp, nth int, read bool) (fired bool, err error) {
+	if read {
+		nm.N.World.FailNthRead(nth)
+	} else {
+		nm.N.World.FailNthWrite(nth)
+	}
 	err = nm.Apply(op)
 	WaitAsync()
 	fired = !nm.N.World.Disarm()
@@ -1699,7 +1712,12 @@ func (nm *NodeMachine) ApplyWithFault(op NOp, nth int) (fired bool, err error) {
 		return false, err
 	}
 	nm.Stat["fault-fired"]++
-	nm.Stat["fault-in-"+op.Op]++
+	if read {
+		nm.Stat["read-fault-fired"]++
+		nm.Stat["read-fault-in-"+op.Op]++
+	} else {
+		nm.Stat["fault-in-"+op.Op]++
+	}
 	return true, nm.reconcile()
 }
 
